@@ -62,6 +62,20 @@ CLAIMED = {
           "stats_calc_indices/stats_cache are compared when present."),
     technique="TLA+ model (TLC exhaustive) + spec-generated behaviours replayed on the implementation",
     design_ref="DESIGN.md 4.9, 5 (C09)", engine="quantizer"),
+ "C08": dict(
+    text=("PFB.tla models channelize() as rows of B samples with the tail cache that makes chunked calls contiguous, "
+          "and computes every spectrum exactly (Gaussian integers, B in {2,4}, integer window, real and complex "
+          "input). TLC checks NoGapNoRepeat, CacheIsTail, ChunkingInvariant, ObjectsIndependent, OneShotIsPure over "
+          "all sequences of cached/stateless calls and resets on two interleaved objects. Generated behaviours are "
+          "replayed on real PolyphaseFilterbank objects (integer window assigned) and every returned spectrum and "
+          "cache length compared with TLC's. For realistic (taps, branches, window) a harness-owned direct FIR+DFT "
+          "definition, linearity, every composition of the stream into chunks (bit-for-bit vs one-shot), the FIR "
+          "window design and get_pfb_voltages are checked numerically."),
+    note=("Trusted: TLC, numpy FFT-free direct definition with explicit DFT matrix (1e-9 relative), scipy firwin as "
+          "the window definition. Exact leg bounded to B in {2,4}, taps in {2,3}, <= 6 windows; numeric leg to "
+          "B <= 1024, taps <= 16."),
+    technique="TLA+ model (TLC exhaustive) + spec-generated behaviours replayed on the implementation + numeric definition check",
+    design_ref="DESIGN.md 4.8, 5 (C08)", engine="pfb"),
 }
 
 NOT_YET = "check not built yet in this round (planned, see DESIGN.md 5); no claim is made"
